@@ -42,7 +42,7 @@ fn main() {
                 "C18" => (gen_basic::gen_c18(&mut rng, thorough, release), gen_basic::fals_c18(&mut frng, thorough, release)),
                 "C07" => (gen_basic::gen_c07(&mut rng, thorough), gen_basic::fals_c07(&mut frng, thorough)),
                 "C06" => (gen_basic::gen_c06(&mut rng, thorough), gen_basic::fals_c06(&mut frng, thorough)),
-                "C03" => (gen_basic::gen_c03(&mut rng, thorough), gen_basic::fals_c03(&mut frng, thorough)),
+                "C03" => ({ let mut v = gen_basic::gen_c03(&mut rng, thorough); v.extend(gen_net2::gen_c03_net(&mut rng, thorough)); v }, gen_basic::fals_c03(&mut frng, thorough)),
                 "C02" => (gen_net::gen_c02(&mut rng, thorough), fals::Fals::new()),
                 "C08" => (gen_net::gen_c08(&mut rng, thorough), fals::Fals::new()),
                 "C01" => (gen_net::gen_c01(&mut rng, thorough), fals::Fals::new()),
@@ -52,7 +52,7 @@ fn main() {
                 "C17" => (gen_net2::gen_c17(&mut rng, thorough), fals::Fals::new()),
                 "C04" => (gen_net2::gen_c04(&mut rng, thorough), fals::Fals::new()),
                 "C13" => (gen_net2::gen_c13(&mut rng, thorough), fals::Fals::new()),
-                "C09" => (gen_net2::gen_c09(&mut rng, thorough), fals::Fals::new()),
+                "C09" => ({ let mut v = gen_net2::gen_c09(&mut rng, thorough); v.extend(gen_net2::gen_c09_blocks(&mut rng, thorough)); v }, fals::Fals::new()),
                 "C12" => (gen_net2::gen_c12(&mut rng, thorough), fals::Fals::new()),
                 "C05" => (gen_net2::gen_c05(&mut rng, thorough), gen_net2::fals_c05(&mut frng, thorough)),
                 _ => {
